@@ -6,7 +6,7 @@
 set -e
 OUT=${1:-/tmp/svgbob-cov}; mkdir -p "$OUT"
 cd "$(dirname "$0")/../harness"
-CARGO_NET_OFFLINE=true CARGO_TARGET_DIR="$OUT/target" RUSTFLAGS="-C instrument-coverage" cargo +nightly build --offline >/dev/null 2>&1
+LLVM_PROFILE_FILE="$OUT/build_%p.profraw" CARGO_NET_OFFLINE=true CARGO_TARGET_DIR="$OUT/target" RUSTFLAGS="-C instrument-coverage" cargo +nightly build --offline >/dev/null 2>&1   # build scripts are instrumented too: keep their profiles out of /repo
 LT=$(ls -d ~/.rustup/toolchains/nightly-x86_64-unknown-linux-gnu/lib/rustlib/*/bin)
 rm -f "$OUT"/*.profraw; n=0
 for f in ../build/work/C*_quick/impl/cases_*.txt; do n=$((n+1)); LLVM_PROFILE_FILE="$OUT/p_$n.profraw" timeout 300 "$OUT/target/debug/svgbob-verif-harness" run "$f" 1 >/dev/null 2>&1 || true; done
